@@ -67,8 +67,20 @@ def cases(tier: str, seed: int) -> List[Dict[str, Any]]:
             for r in GRID:
                 out.append({"kind": "rule", "L": L, "m": list(m), "r": list(r)})
     for L in range(1, WIRING[tier] + 1):
-        for m, r in [((1, 1), (1, 1)), ((1, 2), (3, 2)), ((4, 1), (1, 4))]:
+        for m, r in [((1, 2), (3, 2)), ((4, 1), (1, 4))]:
             out.append({"kind": "wiring", "L": L, "m": list(m), "r": list(r)})
+    # the DEFAULT rule object is process-global state shared by all decoders: every use of it
+    # lives in this single case (fixed order: ascending then descending depths), so the case
+    # is deterministic whichever worker runs it, and history dependence is caught
+    W = WIRING[tier]
+    out.append({"kind": "wiring", "L": 1, "m": [1, 1], "r": [1, 1],
+                "Ls": list(range(1, W + 1)) + list(range(W, 0, -3))})
+    # history: ONE rule object queried for several depths in sequence must answer like a
+    # fresh one (the default rule object is shared by every TransformerStack/Decoder)
+    seqs = [[a, b, a] for a in (1, 2, 3, 5, 8) for b in (1, 2, 4, 7, 16) if a != b]
+    for sq in seqs:
+        for m, r in [((1, 1), (1, 1)), ((1, 2), (3, 2))]:
+            out.append({"kind": "reuse", "L": sq[0], "seq": sq, "m": list(m), "r": list(r)})
     return out
 
 
@@ -128,6 +140,22 @@ def run_case(case: Dict[str, Any]) -> Dict[str, Any]:
             "outcome": "balanced" if not viol else "unbalanced",
             "nontrivial": len({round(t, 12) for t in impl}) > 1,
         }
+    if case["kind"] == "reuse":
+        rule = transformer_residual_scaling_rule(float(m), float(r))
+        steps = 0
+        for pos, Lq in enumerate(case["seq"]):
+            mod = model_taus_sq(Lq, m, r)
+            order = range(2 * Lq) if pos % 2 == 0 else reversed(range(2 * Lq))
+            for i in order:
+                t = rule(i, 2 * Lq)
+                steps += 1
+                if not _close(t * t, float(mod[i])):
+                    viol.append({"key": "reuse|tau_depends_on_history", "msg":
+                                 f"{tag} seq={case['seq']} query#{pos} L={Lq} index={i}: tau^2={t*t!r} model={float(mod[i])!r}"})
+                    break
+            if viol:
+                break
+        return {"violations": viol, "steps": steps, "outcome": "reuse_ok" if not viol else "reuse_bad"}
     # ---- wiring: TransformerDecoder assigns tau(2i), tau(2i+1) of 2L to layer i
     import torch
 
@@ -136,18 +164,27 @@ def run_case(case: Dict[str, Any]) -> Dict[str, Any]:
     kw = {} if default else {
         "residual_scaling": uu.transformer_residual_scaling_rule(float(m), float(r))
     }
-    dec = uu.TransformerDecoder(hidden_size=8, vocab_size=5, layers=L, heads=1, **kw)
-    if len(dec.layers) != L:
-        viol.append({"key": "wiring|layer_count", "msg": f"{tag}: {len(dec.layers)} layers"})
-    for i, layer in enumerate(dec.layers):
-        for nm, idx in (("mhsa_tau", 2 * i), ("mlp_tau", 2 * i + 1)):
-            t = getattr(layer, nm)
-            if not _close(t * t, float(model[idx])):
-                viol.append(
-                    {
-                        "key": f"wiring|{nm}",
-                        "msg": f"{tag} layer={i}: {nm}^2={t * t!r} model={float(model[idx])!r}",
-                    }
-                )
+    steps = 0
+    for L in case.get("Ls", [L]):
+        model = model_taus_sq(L, m, r)
+        tag = f"m={m}|r={r}|L={L}"
+        dec = uu.TransformerDecoder(hidden_size=8, vocab_size=5, layers=L, heads=1, **kw)
+        steps += 2 * L
+        if len(dec.layers) != L:
+            viol.append({"key": "wiring|layer_count", "msg": f"{tag}: {len(dec.layers)} layers"})
+        for i, layer in enumerate(dec.layers):
+            for nm, idx in (("mhsa_tau", 2 * i), ("mlp_tau", 2 * i + 1)):
+                t = getattr(layer, nm)
+                if not _close(t * t, float(model[idx])):
+                    viol.append(
+                        {
+                            "key": f"wiring|{nm}|{'default_rule' if default else 'custom_rule'}",
+                            "msg": f"{tag} layer={i}: {nm}^2={t * t!r} model={float(model[idx])!r}",
+                        }
+                    )
+                    break
+            if viol:
                 break
-    return {"violations": viol[:3], "steps": 2 * L, "outcome": "wired" if not viol else "miswired"}
+        if viol:
+            break
+    return {"violations": viol[:3], "steps": steps, "outcome": "wired" if not viol else "miswired"}
